@@ -106,7 +106,7 @@ CHECKS = {
             'oracles': {'routing': [XRT.oracle_c08_routing], 'core': [O.oracle_c08], 'core-cancel': [O.oracle_c08], 'core-ends': [O.oracle_c08], 'core-lease': [O.oracle_c08],
                         'core-eager': [O.oracle_c08], 'core-await': [O.oracle_c08], 'reconnect': [XR.oracle_c08_reconnect]},
             'level': 'exploration'},
-    'C13': {'profiles': [('core-ids', 5000, 200000), ('core', 1000, 40000), ('id-reuse', 2000, 60000)],
+    'C13': {'profiles': [('core-ids', 10000, 50000), ('core', 2000, 10000), ('id-reuse', 4000, 20000)],
             'oracles': {'core-ids': [O.oracle_c13], 'core': [O.oracle_c13], 'id-reuse': [PH.oracle_c13_reuse]},
             'level': 'exploration'},
     'C07': {'profiles': [('core-cancel', 2000, 80000), ('core-ends', 2000, 80000), ('core', 1000, 40000),
@@ -122,19 +122,19 @@ CHECKS = {
                          ('routing-close', 1500, 40000)],
             'oracles': {'cut': [O.oracle_c11], 'cut-msg': [O.oracle_c11], 'cut-sweep': [O.oracle_c11], 'cut-sweep-full': [O.oracle_c11],
                         'routing-close': [XRT.oracle_c11_routing]}, 'level': 'fault_enumeration'},
-    'C14': {'profiles': [('lease-req', 12000, 400000), ('lease-resp', 3000, 100000), ('reconnect-lease', 3000, 100000)],
+    'C14': {'profiles': [('lease-req', 24000, 120000), ('lease-resp', 6000, 30000), ('reconnect-lease', 6000, 30000)],
             'oracles': {'lease-req': [PP.oracle_c14], 'lease-resp': [PP.oracle_c14], 'reconnect-lease': [XR.oracle_c14_reconnect]},
             'level': 'exploration'},
-    'C15': {'profiles': [('keepalive', 8000, 300000)], 'oracles': [PP.oracle_c15], 'level': 'exploration'},
-    'C16': {'profiles': [('setup-client', 8000, 300000), ('setup-server', 4000, 150000)],
+    'C15': {'profiles': [('keepalive', 16000, 80000)], 'oracles': [PP.oracle_c15], 'level': 'exploration'},
+    'C16': {'profiles': [('setup-client', 16000, 80000), ('setup-server', 8000, 40000)],
             'oracles': [PP.oracle_c16], 'level': 'exploration'},
-    'C17': {'profiles': [('reconnect', 6000, 200000), ('reconnect-connfail', 2000, 60000), ('reconnect-sweep', 16, 600)],
+    'C17': {'profiles': [('reconnect', 12000, 60000), ('reconnect-connfail', 4000, 20000), ('reconnect-sweep', 32, 160)],
             'oracles': [XR.oracle_c17], 'level': 'exploration'},
     'C12': {'profiles': [('hostile', 12000, 400000), ('buggify', 3000, 100000), ('routing', 2000, 60000)],
             'oracles': {'hostile': [PH.oracle_c12_hostile], 'buggify': [PH.oracle_c12_buggify], 'routing': [XRT.oracle_c12_routing]},
             'level': 'exploration'},
-    'C19': {'profiles': [('routing', 10000, 300000)], 'oracles': [XRT.oracle_c19], 'level': 'exploration'},
-    'C20': {'profiles': [('rx', 8000, 250000)], 'oracles': [XRX.oracle_c20], 'level': 'exploration'},
+    'C19': {'profiles': [('routing', 20000, 100000)], 'oracles': [XRT.oracle_c19], 'level': 'exploration'},
+    'C20': {'profiles': [('rx', 16000, 80000)], 'oracles': [XRX.oracle_c20], 'level': 'exploration'},
     'C10': {'profiles': [('core-ends', 3500, 140000), ('core', 1500, 60000), ('core-frag', 1000, 40000),
                          ('core-ids-ends', 1000, 40000), ('id-reuse-after-end', 3000, 100000), ('cancel-sweep', 16, 160)],
             'oracles': {'cancel-sweep': [O.oracle_c10], 'core-ends': [O.oracle_c10], 'core': [O.oracle_c10], 'core-frag': [O.oracle_c10], 'core-ids-ends': [O.oracle_c10],
